@@ -390,8 +390,13 @@ sort_function_table (program_t * prog)
 
   if (prog->type_start)
     {
+      /* permute through a copy: done in place, entries are overwritten before they are read */
+      unsigned short *old_start = CALLOCATE (num, unsigned short, TAG_TEMPORARY, "sort_function_table");
       for (i = 0; i < num; i++)
-        prog->type_start[i] = prog->type_start[temp[i]];
+        old_start[i] = prog->type_start[i];
+      for (i = 0; i < num; i++)
+        prog->type_start[i] = old_start[temp[i]];
+      FREE (old_start);
     }
 
   FREE (sorttmp);
